@@ -506,6 +506,9 @@ fn registry() -> Registry {
         WB<DP<X8, SH>>, PR<MH<X8>, SH>, PR<WB<X8>, WT<XB>>, PR<PR<X8, XB>, SH>, PR<VU<X8>, MH<XB>>,
         VU<MH<X8>>, VU<WB<SH>>, VU<WT<X8>>, VU<PR<X8, SH>>, VU<VU<X8>>,
         DP<X8, MH<SH>>, DP<DP<X8, N8>, SH>, DP<X8, WB<SH>>, DP<X8, VU<X8>>);
+    // signed integers (bottom of Max is the negative MIN)
+    reg!(r.add_d(true): Max<i8>, Min<i8>, Max<i32>, Min<i32>, MH<Max<i8>>, WB<Min<i8>>, WT<Max<i8>>,
+        DP<Max<i8>, SH>, PR<Max<i8>, Min<i32>>, VU<Min<i8>>);
     // #[derive(Lattice)] structs with three fields
     reg!(r.add_d(true): Tri<X8, SH, XB>, Tri<WT<X8>, MH<SH>, NB>, Tri<SH, SB, VU<X8>>, Tri<(), X8, WB<SH>>,
         MH<Tri<X8, SH, XB>>, WB<Tri<X8, XB, NB>>);
